@@ -138,3 +138,4 @@ package actionlint
 //@   ensures [C13] result.Run == nil ==> len(p.errors) > old(len(p.errors))
 //@ func (*parser).parseCredentials
 //@   ensures [C13] result == nil ==> len(p.errors) > old(len(p.errors))
+//@ auto_invariant ^\(\*parser\)\.: len(p.errors) >= old(len(p.errors))
